@@ -16,21 +16,29 @@ pub fn additive(s: &str) -> bool {
 /// The textbook greedy wrapper of C04: words (already split at whitespace) into lines of width `w`.
 /// `Err(())` = a character wider than the line must be placed on an empty line.
 pub fn greedy_wrap(words: &[String], w: usize) -> Result<Vec<String>, ()> {
+    greedy_wrap_gen(words, w, true)
+}
+
+/// `space_by_content`: a blank separates a word from *any* word before it on the line (textbook); `false`: only from a
+/// line that already has some width — the implementation's behaviour for a word without width at the start of a line
+/// (known finding C04-zero-width-word-at-line-start).  For words of positive width the two coincide.
+pub fn greedy_wrap_gen(words: &[String], w: usize, space_by_content: bool) -> Result<Vec<String>, ()> {
     let mut lines: Vec<String> = Vec::new();
     let mut cur = String::new();
     let mut curw = 0usize;
     for word in words {
         let ww = sw(word);
-        let need = if curw > 0 { 1 + ww } else { ww };
+        let sep = if space_by_content { !cur.is_empty() } else { curw > 0 };
+        let need = if sep { 1 + ww } else { ww };
         if curw + need <= w {
-            if curw > 0 {
+            if sep {
                 cur.push(' ');
             }
             cur.push_str(word);
             curw += need;
             continue;
         }
-        if curw > 0 {
+        if !cur.is_empty() {
             lines.push(std::mem::take(&mut cur));
             curw = 0;
         }
